@@ -220,7 +220,21 @@ def _info_eq_cut(ctx, fv):
                 n += 1
                 want = "err" if nm.endswith("::ne") else "ok"   # ne()==false / eq()==true  <=> unchanged
                 cut |= fv.result_edges(bi, c, want)
-    ctx.floor("R3.3", "comparison of info2 with get_previous_counterparty_commit_info", n, 1)
+    # the retried content must be compared as a whole value (every field of CommitmentInfo2: balances, both HTLC
+    # lists, feerate, delay, keys); a comparison narrowed to some of the fields lets the rest change on a retry
+    ctx.ob("R3.3", n >= 1, f"{fv.b.name}/retry-content-compared-whole",
+           "the retry branch of validate_counterparty_commitment_tx no longer compares the whole CommitmentInfo2 with "
+           "get_previous_counterparty_commit_info(commit_num) (PartialEq on the value): a retry of an already signed "
+           "number can change the fields left out of the comparison",
+           where=f"{fv.b.file}:{fv.b.line}", sample=f"{n} whole-value comparison(s)")
+    # and that equality is the derived one (all fields): a hand-written PartialEq could leave fields out
+    eq = [d for nm, dl in ctx.prog.by_name.items() if nm.endswith("CommitmentInfo2 as std::cmp::PartialEq>::eq") for d in dl]
+    for d in eq:
+        eb = ctx.prog.bodies.get(d.id) if hasattr(d, "id") else None
+        mac = getattr(eb, "mac", None) if eb else None
+        ctx.ob("R3.3", eb is None or (mac is not None and "derive" in mac), "CommitmentInfo2/PartialEq-derived",
+               "CommitmentInfo2's PartialEq is hand-written: the retry comparison may no longer cover every field",
+               where=(f"{eb.file}:{eb.line}" if eb else ""), sample=f"macro {mac}")
     return cut
 
 
